@@ -20,6 +20,7 @@ import AdaptaVerif.Check.Apsp
 import AdaptaVerif.Model.PairingHeap
 import AdaptaVerif.Gen.ShortestPathsK
 import AdaptaVerif.Gen.DijkstraK
+import AdaptaVerif.Gen.JohnsonsK
 namespace Driver.C17
 open Driver AdaptaVerif.Num AdaptaVerif.Model.ShortestPaths AdaptaVerif.Check.Apsp
 
@@ -174,6 +175,13 @@ def checkGraph (c : Case) : CaseResult := Id.run do
         if Vec.at gd j != DJ.get s j then
           return fail (.diverge s!"generated dijkstra (cpp2lean) differs from C++ dijkstra at s={s} j={j}: generated {showDist (Vec.at gd j)} impl {showDist (DJ.get s j)} (translator)")
     stats := stats ++ [("dijkstraHeap.runs-compared", n), ("dijkstraHeap.runs-with-tied-keys", tiedRuns)]
+    -- the generated johnsons (fresh node vector, generated dijkstra_init, generated dijkstra for every k on the SAME vector),
+    -- run on a matrix full of junk, against the C++ johnsons matrix
+    let GJ := AdaptaVerif.Gen.JohnsonsK.johnsons n (Mat.const n (some 999)) (g.edges.map fun e => (e.1, e.2.1))
+      (g.edges.map fun e => some e.2.2) AdaptaVerif.Gen.KeysShortest.modelOps n
+    if let some (i, j) := matEq n GJ JO then
+      return fail (.diverge s!"generated johnsons (cpp2lean) differs from C++ johnsons at i={i} j={j}: generated {showDist (Mat.get GJ i j)} impl {showDist (JO.get i j)} (translator)")
+    stats := stats ++ [("johnsonsgen.compared", 1)]
   -- 4. floyd_warshall last
   let mut modelNote := ""
   let mut modelDiverges := false
